@@ -150,7 +150,7 @@ theorem front_cls_correct_rvm_evex (e : Entry) (ch : List Entry) (hch : ch ∈ r
     obtain ⟨A, hxop, -⟩ := rowAgreeOk_spec _ _ hA
     obtain ⟨p0, p1, p2, hal⟩ := shapeOk3_spec _ _ _ _ _ _ _ hops hS
     rw [hsp] at A
-    obtain ⟨bytes, hb, hf⟩ := vexR_rvm_formOk_evex c ctx e.rule (finalOp e 0x75) reg vvvvv rm k0 k1 k2 f0 f1 f2 hpe hk hm64 hr hv hm hxop hev
+    obtain ⟨bytes, hb, hf⟩ := vexR_rvm_formOk_evex c ctx e.rule (finalOp e 0x75) reg vvvvv rm k0 k1 k2 f0 f1 f2 hpe hk hm64 (by simpa using R.hmodes) hr hv hm hxop hev
       p0 p1 p2 R hsp A r0 r1 r2 (hal _ _ _)
     refine ⟨bytes, k0, k1, k2, hkinds, ?_, hf⟩
     rw [packRegVvvvv_eq reg vvvvv hr hv]
@@ -181,7 +181,7 @@ theorem front_cls_correct_rvm_vex (e : Entry) (ch : List Entry) (hch : ch ∈ rv
     obtain ⟨hll, hmm⟩ := hvx hsp
     obtain ⟨p0, p1, p2, hal⟩ := shapeOk3_spec _ _ _ _ _ _ _ hops hS
     have A' : RowAgree e.rule (finalOp e 0x75) false := by rw [hsp] at A; exact A
-    obtain ⟨bytes, hb, hf⟩ := vexR_rvm_formOk_vex c ctx e.rule (finalOp e 0x75) reg vvvvv rm k0 k1 k2 f0 f1 f2 hpe hk hm64 hr hv hm hxop hll hmm
+    obtain ⟨bytes, hb, hf⟩ := vexR_rvm_formOk_vex c ctx e.rule (finalOp e 0x75) reg vvvvv rm k0 k1 k2 f0 f1 f2 hpe hk hm64 (by simpa using R.hmodes) hr hv hm hxop hll hmm
       p0 p1 p2 R hsp A' r0 r1 r2 (hal _ _ _)
     refine ⟨bytes, k0, k1, k2, hkinds, ?_, hf⟩
     rw [packRegVvvvv_eq reg vvvvv (by bv_decide) (by bv_decide)]
@@ -287,13 +287,13 @@ theorem front_cls_correct_rm (e : Entry) (ch : List Entry) (hch : ch ∈ rmChunk
     have e0 : reg + ((0#32 : BitVec 32) <<< 7) = reg := by bv_decide
     rcases hids with ⟨hsp, hr, hm, hev⟩ | ⟨hsp, hr, hm⟩
     · rw [hsp] at A
-      obtain ⟨bytes, hb, hf⟩ := vexR_rm_formOk_evex c ctx e.rule (finalOp e 0x6B) reg rm k0 k2 f0 f2 hpe hk hm64 hr hm hxop hev p0 p2 R hsp A r0 r2 (hal _ _)
+      obtain ⟨bytes, hb, hf⟩ := vexR_rm_formOk_evex c ctx e.rule (finalOp e 0x6B) reg rm k0 k2 f0 f2 hpe hk hm64 (by simpa using R.hmodes) hr hm hxop hev p0 p2 R hsp A r0 r2 (hal _ _)
       refine ⟨bytes, k0, k2, hkinds, ?_, hf⟩
       rw [e0] at hb
       simpa [r32] using hb
     · obtain ⟨hll, hmm⟩ := hvx hsp
       have A' : RowAgree e.rule (finalOp e 0x6B) false := by rw [hsp] at A; exact A
-      obtain ⟨bytes, hb, hf⟩ := vexR_rm_formOk_vex c ctx e.rule (finalOp e 0x6B) reg rm k0 k2 f0 f2 hpe hk hm64 hr hm hxop hll hmm p0 p2 R hsp A' r0 r2 (hal _ _)
+      obtain ⟨bytes, hb, hf⟩ := vexR_rm_formOk_vex c ctx e.rule (finalOp e 0x6B) reg rm k0 k2 f0 f2 hpe hk hm64 (by simpa using R.hmodes) hr hm hxop hll hmm p0 p2 R hsp A' r0 r2 (hal _ _)
       refine ⟨bytes, k0, k2, hkinds, ?_, hf⟩
       rw [e0] at hb
       simpa [r32] using hb
@@ -324,14 +324,14 @@ theorem front_cls_correct_rvmi (e : Entry) (ch : List Entry) (hch : ch ∈ rvmiC
       intro i0 i1 i2; rw [hops]; exact alignOps4 _ _ _ _ _ _ _ _ _ (m0 i0) (m1 i1) (m2 i2) m3
     rcases hids with ⟨hsp, hr, hv, hm, hev⟩ | ⟨hsp, hr, hv, hm⟩
     · rw [hsp] at A
-      obtain ⟨bytes, hb, hf⟩ := vexR_rvmi_formOk_evex c ctx e.rule (finalOp e 0x7C) reg vvvvv rm k0 k1 k2 f0 f1 f2 hpe hk hm64 hr hv hm hxop hev
+      obtain ⟨bytes, hb, hf⟩ := vexR_rvmi_formOk_evex c ctx e.rule (finalOp e 0x7C) reg vvvvv rm k0 k1 k2 f0 f1 f2 hpe hk hm64 (by simpa using R.hmodes) hr hv hm hxop hev
         p0 p1 p2 R f3 imm r3 hib hsp A r0 r1 r2 (hal _ _ _)
       refine ⟨bytes, k0, k1, k2, hkinds, ?_, hf⟩
       rw [packRegVvvvv_eq reg vvvvv hr hv]
       simpa [r32] using hb
     · obtain ⟨hll, hmm⟩ := hvx hsp
       have A' : RowAgree e.rule (finalOp e 0x7C) false := by rw [hsp] at A; exact A
-      obtain ⟨bytes, hb, hf⟩ := vexR_rvmi_formOk_vex c ctx e.rule (finalOp e 0x7C) reg vvvvv rm k0 k1 k2 f0 f1 f2 hpe hk hm64 hr hv hm hxop hll hmm
+      obtain ⟨bytes, hb, hf⟩ := vexR_rvmi_formOk_vex c ctx e.rule (finalOp e 0x7C) reg vvvvv rm k0 k1 k2 f0 f1 f2 hpe hk hm64 (by simpa using R.hmodes) hr hv hm hxop hll hmm
         p0 p1 p2 R f3 imm r3 hib hsp A' r0 r1 r2 (hal _ _ _)
       refine ⟨bytes, k0, k1, k2, hkinds, ?_, hf⟩
       rw [packRegVvvvv_eq reg vvvvv (by bv_decide) (by bv_decide)]
@@ -364,16 +364,161 @@ theorem front_cls_correct_rmi (e : Entry) (ch : List Entry) (hch : ch ∈ rmiChu
     have e0 : reg + ((0#32 : BitVec 32) <<< 7) = reg := by bv_decide
     rcases hids with ⟨hsp, hr, hm, hev⟩ | ⟨hsp, hr, hm⟩
     · rw [hsp] at A
-      obtain ⟨bytes, hb, hf⟩ := vexR_rmi_formOk_evex c ctx e.rule (finalOp e 0x71) reg rm k0 k2 f0 f2 hpe hk hm64 hr hm hxop hev p0 p2 R f3 imm r3 hib hsp A r0 r2 (hal _ _)
+      obtain ⟨bytes, hb, hf⟩ := vexR_rmi_formOk_evex c ctx e.rule (finalOp e 0x71) reg rm k0 k2 f0 f2 hpe hk hm64 (by simpa using R.hmodes) hr hm hxop hev p0 p2 R f3 imm r3 hib hsp A r0 r2 (hal _ _)
       refine ⟨bytes, k0, k2, hkinds, ?_, hf⟩
       rw [e0] at hb
       simpa [r32] using hb
     · obtain ⟨hll, hmm⟩ := hvx hsp
       have A' : RowAgree e.rule (finalOp e 0x71) false := by rw [hsp] at A; exact A
-      obtain ⟨bytes, hb, hf⟩ := vexR_rmi_formOk_vex c ctx e.rule (finalOp e 0x71) reg rm k0 k2 f0 f2 hpe hk hm64 hr hm hxop hll hmm p0 p2 R f3 imm r3 hib hsp A' r0 r2 (hal _ _)
+      obtain ⟨bytes, hb, hf⟩ := vexR_rmi_formOk_vex c ctx e.rule (finalOp e 0x71) reg rm k0 k2 f0 f2 hpe hk hm64 (by simpa using R.hmodes) hr hm hxop hll hmm p0 p2 R f3 imm r3 hib hsp A' r0 r2 (hal _ _)
       refine ⟨bytes, k0, k2, hkinds, ?_, hf⟩
       rw [e0] at hb
       simpa [r32] using hb
   · simp at hok
+
+/-! ### legacy encoding space: ExtRm, ExtRm_P, X86Rm, X86Rm_NoSize ([reg, rm]), X86Mr, X86Mr_NoSize ([rm, reg]), ExtRmi, ExtRmi_P ([reg, rm, imm8]) -/
+
+def isXmmKind (k : RegKind) : Bool := k == .xmm
+def kindSize (k : RegKind) : Nat := (Op.reg (rtypeOf k) 0).rmSize
+
+/-- the opcode word the legacy class hands to `EmitX86R` -/
+def finalOpLeg (e : Entry) : BitVec 32 :=
+  let k0 := e.kinds.getD 0 .none
+  let k1 := e.kinds.getD 1 .none
+  if e.enc == 0x4D || e.enc == 0x53 then e.mainOp ||| ((if isXmmKind k0 || isXmmKind k1 then 1#32 else 0#32) <<< 21)      -- ExtRm_P / ExtRmi_P
+  else if e.enc == 0x14 then addPrefixBySize e.mainOp (kindSize k0)                                                        -- X86Rm
+  else if e.enc == 0x17 then addPrefixBySize e.mainOp (kindSize k1)                                                        -- X86Mr
+  else e.mainOp
+
+def legRuleOk (r : Rule) (nimm pp : Nat) : Bool :=
+  r.modes &&& 2 != 0 && (r.space == 0 && (r.pp &&& 8 == 0 && (((r.pp &&& 1 != 0 || r.osz == 16) == (pp == 1)) && (((r.pp &&& 2 != 0) == (pp == 2)) &&
+  (((r.pp &&& 4 != 0) == (pp == 3)) && (pp < 4 && (!r.ri && ((r.modKind == 1 || r.modKind == 2) && (r.modr == 8 && (r.modrm == 8 &&
+  (r.immBytes == nimm && (r.relBytes == 0 && (!r.moff && (!r.a67 && !r.immRev))))))))))))))
+
+theorem legRuleOk_spec (r : Rule) (n pp : Nat) (h : legRuleOk r n pp = true) : LegRule r n pp := by
+  simp only [legRuleOk, Bool.and_eq_true, Bool.or_eq_true, beq_iff_eq, bne_iff_ne, ne_eq, Bool.not_eq_true', decide_eq_true_eq] at h
+  obtain ⟨hmodes, hs, hpp8, h66, hF3, hF2, hpplt, hri, hmk, hmr, hmrm, himm, hrel, hmoff, ha67, hrev⟩ := h
+  exact ⟨hmodes, hs, hpp8, by simpa using h66, by simpa using hF3, by simpa using hF2, hpplt, hri, hmk, hmr, hmrm, himm, hrel, hmoff, ha67, hrev⟩
+
+def legAgreeOk (r : Rule) (op : BitVec 32) : Bool :=
+  r.opcode == (op &&& 0xFF#32).toNat && (r.map == ((op >>> 8) &&& 3#32).toNat && ((wWant r == 2 || wWant r == ((op >>> 27) &&& 1#32).toNat) &&
+  (op &&& 0xF7801C00#32 == 0#32 &&
+  ((op >>> 8) &&& 3#32 != 0#32 || (!isLegacyPrefix (op.truncate 8) false && (op.truncate 8 : BitVec 8) >>> 4 != 4#8)))))
+
+theorem legAgreeOk_spec (r : Rule) (op : BitVec 32) (h : legAgreeOk r op = true) : LegAgree r op ∧ op &&& 0xF7801C00#32 = 0#32 := by
+  simp only [legAgreeOk, Bool.and_eq_true, Bool.or_eq_true, beq_iff_eq, bne_iff_ne, ne_eq, Bool.not_eq_true'] at h
+  obtain ⟨hop, hmap, hw, hmask, hsafe⟩ := h
+  refine ⟨⟨hop, hmap, hw, ?_⟩, hmask⟩
+  intro h0
+  rcases hsafe with h | h
+  · exact absurd h0 h
+  · exact h
+
+def entryOkLrm (e : Entry) : Bool :=
+  match e.rule.ops, e.kinds with
+  | [f0, f1], [k0, k1] =>
+    (e.enc == 0x4A || e.enc == 0x4D || e.enc == 0x14 || e.enc == 0x16) &&
+    (legRuleOk e.rule 0 ((finalOpLeg e >>> 21) &&& 3#32).toNat && (legAgreeOk e.rule (finalOpLeg e) &&
+    (f0.role == .reg && (f1.role == .rm && shapeOk2 e.rule f0 f1 k0 k1))))
+  | _, _ => false
+
+def entryOkLmr (e : Entry) : Bool :=
+  match e.rule.ops, e.kinds with
+  | [f0, f1], [k0, k1] =>
+    (e.enc == 0x17 || e.enc == 0x18) &&
+    (legRuleOk e.rule 0 ((finalOpLeg e >>> 21) &&& 3#32).toNat && (legAgreeOk e.rule (finalOpLeg e) &&
+    (f0.role == .rm && (f1.role == .reg && shapeOk2 e.rule f0 f1 k0 k1))))
+  | _, _ => false
+
+def entryOkLrmi (e : Entry) : Bool :=
+  match e.rule.ops, e.kinds with
+  | [f0, f1, f3], [k0, k1] =>
+    (e.enc == 0x52 || e.enc == 0x53) &&
+    (legRuleOk e.rule 1 ((finalOpLeg e >>> 21) &&& 3#32).toNat && (legAgreeOk e.rule (finalOpLeg e) &&
+    (f0.role == .reg && (f1.role == .rm && (f3.role == .imm && (immBitsOf f3 == 8 && (!(immSignOf f3 == 1) && shapeOk2 e.rule f0 f1 k0 k1)))))))
+  | _, _ => false
+
+theorem lrm_entries_ok : lrmChunks.all (fun c => c.all entryOkLrm) = true := by decide +kernel
+theorem lmr_entries_ok : lmrChunks.all (fun c => c.all entryOkLmr) = true := by decide +kernel
+theorem lrmi_entries_ok : lrmiChunks.all (fun c => c.all entryOkLrmi) = true := by decide +kernel
+
+/-- **front_cls_correct, legacy classes ExtRm, ExtRm_P, X86Rm, X86Rm_NoSize** (operands reg, r/m): for EVERY regenerated (row, form) pair and ALL
+register numbers 0..15 the bytes `EmitX86R` produces for the class's opcode word satisfy the monitor. -/
+theorem front_cls_correct_lrm (e : Entry) (ch : List Entry) (hch : ch ∈ lrmChunks) (he : e ∈ ch)
+    (ctx : Spec.X86.Ctx) (r0 r1 : BitVec 32) (hm64 : ctx.mode64 = true) (h0 : r0 < 16#32) (h1 : r1 < 16#32) :
+    ∃ bytes k0 k1, e.kinds = [k0, k1] ∧ emitX86R (finalOpLeg e) 0#32 r0 r1 0 0 = .ok bytes ∧
+      formOk ctx e.rule [.reg k0 r0.toNat, .reg k1 r1.toNat] {} bytes = true := by
+  have hok := mem_chunks_ok lrm_entries_ok e ch hch he
+  unfold entryOkLrm at hok
+  split at hok
+  · rename_i f0 f1 k0 k1 hops hkinds
+    simp only [Bool.and_eq_true, beq_iff_eq] at hok
+    obtain ⟨-, hR, hA, ra, rb, hS⟩ := hok
+    obtain ⟨A, hmask⟩ := legAgreeOk_spec _ _ hA
+    obtain ⟨p0, p1, m0, m1⟩ := shapeOk2_spec _ _ _ _ _ hS
+    obtain ⟨bytes, hb, hf⟩ := legR_2reg_formOk ctx e.rule (finalOpLeg e) r0 r1 k0 k1 f0 f1 hm64 (by simpa using (legRuleOk_spec _ _ _ hR).hmodes) hmask h0 h1 p0 p1 (legRuleOk_spec _ _ _ hR) A true
+      (by simp [ra, rb]) (fun ia ib => by rw [hops]; exact alignOps2 _ _ _ _ _ (m0 ia) (m1 ib))
+    exact ⟨bytes, k0, k1, hkinds, hb, by simpa using hf⟩
+  · simp at hok
+
+/-- **front_cls_correct, legacy classes X86Mr, X86Mr_NoSize** (operands r/m, reg). -/
+theorem front_cls_correct_lmr (e : Entry) (ch : List Entry) (hch : ch ∈ lmrChunks) (he : e ∈ ch)
+    (ctx : Spec.X86.Ctx) (r0 r1 : BitVec 32) (hm64 : ctx.mode64 = true) (h0 : r0 < 16#32) (h1 : r1 < 16#32) :
+    ∃ bytes k0 k1, e.kinds = [k0, k1] ∧ emitX86R (finalOpLeg e) 0#32 r1 r0 0 0 = .ok bytes ∧
+      formOk ctx e.rule [.reg k0 r0.toNat, .reg k1 r1.toNat] {} bytes = true := by
+  have hok := mem_chunks_ok lmr_entries_ok e ch hch he
+  unfold entryOkLmr at hok
+  split at hok
+  · rename_i f0 f1 k0 k1 hops hkinds
+    simp only [Bool.and_eq_true, beq_iff_eq] at hok
+    obtain ⟨-, hR, hA, ra, rb, hS⟩ := hok
+    obtain ⟨A, hmask⟩ := legAgreeOk_spec _ _ hA
+    obtain ⟨p0, p1, m0, m1⟩ := shapeOk2_spec _ _ _ _ _ hS
+    obtain ⟨bytes, hb, hf⟩ := legR_2reg_formOk ctx e.rule (finalOpLeg e) r1 r0 k0 k1 f0 f1 hm64 (by simpa using (legRuleOk_spec _ _ _ hR).hmodes) hmask h1 h0 p0 p1 (legRuleOk_spec _ _ _ hR) A false
+      (by simp [ra, rb]) (fun ia ib => by rw [hops]; exact alignOps2 _ _ _ _ _ (m0 ia) (m1 ib))
+    exact ⟨bytes, k0, k1, hkinds, hb, by simpa using hf⟩
+  · simp at hok
+
+/-- **front_cls_correct, legacy classes ExtRmi, ExtRmi_P** (operands reg, r/m, imm8): for every 8-bit immediate the form admits. -/
+theorem front_cls_correct_lrmi (e : Entry) (ch : List Entry) (hch : ch ∈ lrmiChunks) (he : e ∈ ch)
+    (ctx : Spec.X86.Ctx) (r0 r1 : BitVec 32) (imm : BitVec 64) (hm64 : ctx.mode64 = true) (h0 : r0 < 16#32) (h1 : r1 < 16#32)
+    (himm : ∀ f3, e.rule.ops[2]? = some f3 → formOpMatches e.rule.oszEff f3 (.imm imm) = true) :
+    ∃ bytes k0 k1, e.kinds = [k0, k1] ∧ emitX86R (finalOpLeg e) 0#32 r0 r1 imm 1 = .ok bytes ∧
+      formOk ctx e.rule [.reg k0 r0.toNat, .reg k1 r1.toNat, .imm imm] {} bytes = true := by
+  have hok := mem_chunks_ok lrmi_entries_ok e ch hch he
+  unfold entryOkLrmi at hok
+  split at hok
+  · rename_i f0 f1 f3 k0 k1 hops hkinds
+    simp only [Bool.and_eq_true, beq_iff_eq, Bool.not_eq_true'] at hok
+    obtain ⟨-, hR, hA, ra, rb, r3, hib, hsg, hS⟩ := hok
+    obtain ⟨A, hmask⟩ := legAgreeOk_spec _ _ hA
+    obtain ⟨p0, p1, m0, m1⟩ := shapeOk2_spec _ _ _ _ _ hS
+    have m3 : formOpMatches e.rule.oszEff f3 (.imm imm) = true := himm f3 (by rw [hops]; rfl)
+    obtain ⟨bytes, hb, hf⟩ := legR_2reg_imm_formOk ctx e.rule (finalOpLeg e) r0 r1 k0 k1 f0 f1 f3 imm hm64 (by simpa using (legRuleOk_spec _ _ _ hR).hmodes) hmask h0 h1 p0 p1 (legRuleOk_spec _ _ _ hR) A
+      ra rb r3 hib hsg (fun ia ib => by rw [hops]; exact alignOps3i _ _ _ _ _ _ _ (m0 ia) (m1 ib) m3)
+    exact ⟨bytes, k0, k1, hkinds, hb, hf⟩
+  · simp at hok
+
+/-! ### class X86Op (no explicit operands) -/
+
+def entryOkLop (e : Entry) : Bool :=
+  let r := e.rule
+  let pp := ((e.mainOp >>> 21) &&& 3#32).toNat
+  e.enc == 0x01 && (r.modes &&& 2 != 0 && (r.space == 0 && (r.pp &&& 8 == 0 && (((r.pp &&& 1 != 0 || r.osz == 16) == (pp == 1)) && (((r.pp &&& 2 != 0) == (pp == 2)) &&
+  (((r.pp &&& 4 != 0) == (pp == 3)) && (!r.ri && (!r.a67 && (r.modKind == 0 && (r.immBytes == 0 && (r.relBytes == 0 && (!r.moff &&
+  (r.ops.all (·.implicit) && legAgreeOk r e.mainOp)))))))))))))
+
+theorem lop_entries_ok : lopChunks.all (fun c => c.all entryOkLop) = true := by decide +kernel
+
+/-- **front_cls_correct, class X86Op**: for every regenerated (row, form) pair without explicit operands the bytes `EmitX86Op` writes
+(mandatory prefix, REX.W, escape, opcode) satisfy the monitor. -/
+theorem front_cls_correct_lop (e : Entry) (ch : List Entry) (hch : ch ∈ lopChunks) (he : e ∈ ch) (ctx : Spec.X86.Ctx) (hm64 : ctx.mode64 = true) :
+    ∃ bytes, emitX86Op e.mainOp 0#32 0 0 = .ok bytes ∧ formOk ctx e.rule [] {} bytes = true := by
+  have hok := mem_chunks_ok lop_entries_ok e ch hch he
+  simp only [entryOkLop, Bool.and_eq_true, beq_iff_eq, bne_iff_ne, ne_eq, Bool.not_eq_true'] at hok
+  obtain ⟨-, hmodes, hs, hpp8, h66, hF3, hF2, hri, ha67, hmk, himm, hrel, hmoff, himpl, hA⟩ := hok
+  obtain ⟨A, hmask⟩ := legAgreeOk_spec _ _ hA
+  exact x86Op_formOk ctx e.rule e.mainOp hm64 (by simpa using hmodes) hmask hs hpp8 (by simpa using h66) (by simpa using hF3) (by simpa using hF2)
+    hri ha67 hmk himm hrel hmoff himpl A
 
 end AsmjitVerif.Props.C01
